@@ -18,6 +18,8 @@ RULE = ("same program space as C01 with observation points = probe calls P(k) be
 ASSUMPTIONS = [
     "ground truth is the managers' own enter/exit event log",
     "decides the generated programs only",
+    "exit methods declare an explicit first parameter that stays bound to the manager (the exiting manager's obj is, "
+    "by documented design, read off the callee frame's first argument)",
 ]
 MIN_NONTRIVIAL = {"quick": 5000, "thorough": 100000}
 REQUIRED_COUNTERS = {"probe_in_enter": {"quick": 300, "thorough": 3000},
